@@ -11,8 +11,37 @@ import vlib
 ID = "C17"
 CLAIM = True
 MANIFEST_ENTRY = {
-    "text": "Coq theorems (all closed under the global context): every operation of bint.lua/bn.lua the compiler uses - add sub mul inc dec unm, bitwise, comparisons, shifts by any Lua integer count, bwrap, Lua-integer conversions, unsigned/truncated/floor division with remainders, ipow, tobase/frombase for bases 2..36 with round trip, integer literals in bases 2/16 and decimal literals (exact below 2^159, read as a float from there on), tohexint/tobinint/todecint/todecsci, the conversions of Lua integers / integer-valued floats / strings to big numbers and the arithmetic and comparison entry points on such mixed arguments, bint.tonumber (exact integer or nearest double), trunc/floor/ceil of floats, little/big-endian byte buffers - computes exactly in Z reduced to 2^160 two's complement; the model is tied to the code by regenerated parameters and op-by-op correspondence against the real module; rotations for every count, upowmod for every modulus",
+    "text": "proof, partial: every clause of the statement is a Coq theorem over the executable model of bint.lua/bn.lua - "
+            "add sub mul inc dec unm, bitwise, comparisons, shifts and rotations by any Lua integer count, bwrap, Lua-integer "
+            "conversions, unsigned/truncated/floor division with remainders, ipow (exponent read unsigned, as bint documents; signed "
+            "reading proved for exponents >= 0) and upowmod for every modulus, tobase/frombase for bases 2..36 with round trip and the "
+            "exact set of accepted strings (strings without white space), integer literals in bases 2/16 and decimal (exact below 2^159, "
+            "a float from there on), tohexint/tobinint/todecint/todecsci, the conversions of Lua integers / integer-valued floats / "
+            "strings and the arithmetic and comparison entry points on such mixed arguments, bint.tonumber, trunc/floor/ceil, byte "
+            "buffers; and, on an object-level model, that no public function changes an operand and results are fresh objects "
+            "(documented exceptions: tobint/parse without clone, compress, brol/bror by a multiple of the width) - all exact in Z reduced "
+            "to 2^160 two's complement; resting on differential testing only: that the hand-written model IS the code (op-by-op "
+            "correspondence incl. an aliasing stream), the fallback arithmetic on plain Lua numbers, strings with white space, "
+            "the Lua VM library functions modelled in Model3/Model4",
+    "note": "trusted: Coq 8.16.1 kernel, no axioms (coqchk in thorough); hand-written models coq/C17/Model*.v incl. the Lua VM library "
+            "functions (tostring, %x, tonumber(s, base), lower, %w, math.floor/ceil/modf, number comparison, strtod of long decimals, "
+            "string.pack/unpack) modelled from the C sources; coq/Base/LuaInt.v (64-bit Lua integers; the interpreter's width is checked "
+            "at run time); extraction + OCaml driver, harness/C17/ops.lua, the interpreter rebuilt from /repo/src; scrape of bint(<bits>), "
+            "the word-size divisor and BASE_LETTERS. No cross-property file dependencies (C14 reuses C17's bn_from_dec by reference only).",
     "technique": "machine-checked proof in Coq over an executable model + extracted-model/implementation correspondence",
+}
+THEOREM_CLASSES = {
+    "C17_add_exact": "main", "C17_sub_exact": "main", "C17_mul_exact": "main", "C17_inc_dec_unm_exact": "main",
+    "C17_bitwise_exact": "main", "C17_compare_exact": "main", "C17_shift_one_exact": "main", "C17_shl_exact": "main",
+    "C17_shr_exact": "main", "C17_bwrap_exact": "main", "C17_rotate_exact": "main", "C17_integer_conv_exact": "main",
+    "C17_integer_roundtrip": "corollary", "C17_predicates_exact": "main", "C17_limits_exact": "main", "C17_abs_max_min_exact": "main",
+    "C17_udivmod_exact": "main", "C17_tdivmod_exact": "main", "C17_idivmod_exact": "main", "C17_ipow_exact": "main",
+    "C17_ipow_signed": "corollary", "C17_upowmod_exact": "main", "C17_tobase_exact": "main", "C17_frombase_exact": "main",
+    "C17_frombase_accepts": "main", "C17_text_badbase": "definitional", "C17_text_roundtrip": "main", "C17_literal_exact": "main",
+    "C17_intstring_exact": "corollary", "C17_tobint_exact": "main", "C17_fromstring_exact": "main", "C17_mixed_exact": "main",
+    "C17_tonumber_exact": "main", "C17_trunc_floor_ceil_exact": "main", "C17_bytes_exact": "main", "C17_todecsci_exact": "corollary",
+    "C17_objects_unary": "main", "C17_objects_binary": "main", "C17_objects_shift_rotate": "main", "C17_objects_division": "main",
+    "C17_objects_pow_scalar": "main",
 }
 ALLOWED_AXIOMS = []
 TRUSTED_BASE = [
@@ -86,7 +115,7 @@ def gen(ctx):
 
 # normalised-text fingerprints (comments and white space removed) of the two files at the time the model was
 # written; a different fingerprint is NOT a violation, it multiplies the random budget of the run (DESIGN C17, tie)
-MODELLED_FP = {'thirdparty/bint.lua': '024827a252b9ffee', 'utils/bn.lua': '7fecd89819776f71'}
+MODELLED_FP = {'thirdparty/bint.lua': '4d11d678045edd33', 'utils/bn.lua': '7fecd89819776f71'}
 FP_SCALE = 1
 
 
@@ -249,6 +278,7 @@ def in64(z):
 def oracle4(op, args):
     a = args[0]
     b = args[1] if len(args) > 1 else None
+    if op == "alias": return oracle_alias(*args)
     if op == "lua_tonumber":
         v = lua_tonumber_base(a, b); return "nil" if v is None else hexs(v)
     if op == "lua_tostring": return str(a)
@@ -333,7 +363,30 @@ def lua_tonumber_base(bs, base):
     return wrap64s(-v if neg else v)
 
 
-OPS4 = {"lua_tonumber": "SI", "lua_tostring": "I", "lua_format_x": "I", "tobint": "V", "new": "V", "madd": "VV", "msub": "VV", "mmul": "VV", "mlt": "VV", "mle": "VV", "meq": "VV",
+ALIAS_FNS = ["tobint", "parse", "tobintc", "new", "abs", "inc", "dec", "max", "min", "add", "sub", "mul", "bnot", "unm", "band", "bor", "bxor",
+             "shl", "shr", "bwrap", "brol", "bror", "udivmod", "idivmod", "tdivmod", "ipow", "upowmod", "tobase", "tointeger", "compress"]
+
+
+def oracle_alias(fname, x, y, n, m):
+    """no public function changes its operands; results are new objects, except the documented cases"""
+    if fname in ("tobint", "parse", "tobintc", "new"): r = limbs(x)
+    elif fname in ("abs", "inc", "dec", "bnot", "unm"): r = oracle(fname, (x,))
+    elif fname in ("max", "min", "add", "sub", "mul", "band", "bor", "bxor", "ipow"): r = oracle(fname, (x, y))
+    elif fname in ("shl", "shr", "bwrap", "brol", "bror"): r = oracle(fname, (x, n))
+    elif fname in ("udivmod", "idivmod", "tdivmod"): r = oracle(fname, (x, y)).replace(" ", "/") if not oracle(fname, (x, y)).startswith("!") else oracle(fname, (x, y))
+    elif fname == "upowmod": r = oracle("upowmod", (x, y, m))
+    elif fname == "tobase": r = oracle("tobase", (x, n, "n"))
+    elif fname == "tointeger": r = "i " + oracle("tointeger", (x,))
+    elif fname == "compress":
+        r = oracle("compress", (x,)); r = r if r.startswith("i ") else r[2:]
+    nres = 0 if (r.startswith("!") or fname in ("tobase", "tointeger") or (fname == "compress" and r.startswith("i "))) else (2 if fname in ("udivmod", "idivmod", "tdivmod") else 1)
+    aliased = fname in ("tobint", "parse") or (fname == "compress" and nres == 1) or (fname in ("brol", "bror") and n % BITS == 0)
+    flags = ("x" if aliased else "-") * nres
+    x2 = (x + 1) % W if aliased else x
+    return "R=%s X=%s Y=%s A=%s X2=%s Y2=%s" % (r, limbs(x), limbs(y), flags, limbs(x2), limbs(y))
+
+
+OPS4 = {"alias": "KBBIB", "lua_tonumber": "SI", "lua_tostring": "I", "lua_format_x": "I", "tobint": "V", "new": "V", "madd": "VV", "msub": "VV", "mmul": "VV", "mlt": "VV", "mle": "VV", "meq": "VV",
         "tonumber": "B", "trunc": "V", "floor": "V", "ceil": "V", "fromle": "S", "frombe": "S", "tole": "BT", "tobe": "BT",
         "todecsci": "BT", "demotefloat": "V", "canbeintegral": "V"}
 
@@ -581,8 +634,8 @@ def gen_cases(ctx):
     for _ in range(ctx.scale(300, 6000)):
         e = rng.choice([rng.randrange(0, 40), rng.getrandbits(rng.randrange(1, BITS)), draw("lattice")])
         add("pow", "ipow", draw(), e)
-    for _ in range(ctx.scale(60, 2000)):
-        e = rng.choice([rng.randrange(0, 40), rng.getrandbits(rng.randrange(1, BITS))])
+    for _ in range(ctx.scale(16, 1200)):   # costly in the extracted model: every product is 2*bits modular additions
+        e = rng.choice([rng.randrange(0, 40), rng.getrandbits(rng.randrange(1, BITS if ctx.thorough else 24))])
         m = rng.choice([0, 1, 2, rng.getrandbits(rng.randrange(1, BITS + 1)), (1 << (BITS // 2)) + 1, W - 1, W - 2, (W // 2) + 1, draw()])
         add("pow", "upowmod", draw(), e, m)
     # text: every base, both signs, all flag values
@@ -617,6 +670,19 @@ def gen_cases(ctx):
         if k == "from_bin": add("literal", k, neg, to_base(v, 2).encode())
         elif k == "from_hex": add("literal", k, neg, rng.choice([to_base(v, 16), to_base(v, 16).upper()]).encode())
         else: add("literal", k, ((rng.choice(["-", "+", ""])) + to_base(v, 10)).encode())
+    # ---- aliasing: operands re-read after the call, identity of the results, results mutated in place ----
+    for fname in ALIAS_FNS:
+        for _ in range(ctx.scale(6 if fname == "upowmod" else 25, 60 if fname == "upowmod" else 600)):
+            x, y = draw(), draw(rng.choice(["small", "short", "dense", "lattice"]))
+            if fname in ("brol", "bror"): n = rng.choice([0, BITS, -BITS, 2 * BITS, rng.randrange(-2 * BITS, 2 * BITS), 1, -1])
+            elif fname in ("shl", "shr", "bwrap"): n = rng.choice([0, 1, -1, BITS, rng.randrange(-BITS - 5, BITS + 5)])
+            elif fname == "tobase": n = rng.randrange(2, 37)
+            else: n = 0
+            if fname == "ipow": y = rng.choice([0, 1, 2, 3, rng.randrange(0, 50), draw()])
+            if fname == "compress" and rng.random() < .5: x = draw("small")
+            m = rng.choice([0, 1, 2, draw(), W - 1]) if fname == "upowmod" else 0
+            if fname == "upowmod": y = rng.choice([0, 1, rng.randrange(0, 40)])
+            add("alias", "alias", fname, x, y, n, m)
     # ---- the Lua VM functions modelled in Model3.v, called directly (tonumber(s, base), tostring, '%x') ----
     for i in ints + [10**18, -10**18, 2**53, 1 << 40]:
         add("luavm", "lua_tostring", i); add("luavm", "lua_format_x", i)
@@ -704,6 +770,7 @@ def enc(kind, v):
     if kind == "T": return "t" if v else "f"
     if kind == "O": return "nil" if v is None else hexs(v)
     if kind == "V": return val_token(v)
+    if kind == "K": return v
     raise KeyError(kind)
 
 
@@ -724,6 +791,7 @@ def parse_line(line):
         elif k == "S": args.append(b"" if t == "-" else bytes.fromhex(t))
         elif k == "F": args.append(t)
         elif k == "T": args.append(t == "t")
+        elif k == "K": args.append(t)
         elif k == "V":
             kind, rest = t[0], t[2:]
             if kind == "i": args.append(("i", -int(rest[1:], 16) if rest.startswith("-") else int(rest, 16)))
@@ -833,11 +901,13 @@ def correspond(ctx):
 
 # operations covered by correspondence + oracle only (no theorem in Properties.v yet)
 UNPROVED = [
+    "that the object-level model (ModelObj.v: which object each public function writes and returns) is the code: aliasing stream of the correspondence run only (operands re-read, raw identity of results, results mutated in place)",
+    "ipow with a negative exponent: read as a huge unsigned exponent, as bint documents (theorem C17_ipow_exact says so); no reciprocal semantics",
     "fallback arithmetic on plain Lua numbers (an operand without an exact integer representation: the VM's float/integer arithmetic on bint.tonumber of the operands): the theorem only says which operands are handed to the VM; results are the VM's (property C02)",
     "mlt/mle/meq when an operand is not an integer: the model compares exactly by value (lvm.c), correspondence + oracle only, no theorem",
     "bn.demotefloat, bn.canbeintegral, bn.isnan/isinfinite, trunc/floor/ceil of strings: model + correspondence + oracle only",
     "bn.from fractional / exponent parts and hexadecimal floats: float paths, property C14",
-    "frombase on strings outside the documented domain (embedded white space, which the short-string tonumber path accepts): model + correspondence only, no oracle",
+    "frombase on strings containing white space (the short-string path goes through the VM's tonumber, which skips it): model + correspondence only, no oracle; for all other strings acceptance is a theorem (C17_frombase_accepts)",
     "Lua VM library functions the conversions rely on (tostring(integer), string.format('%x'), tonumber(s, base), string.lower, %w, math.floor/ceil/modf, number comparison, strtod of a long decimal, string.pack/unpack) are modelled in Model3.v / Model4.v from the C sources, not verified; exercised by the correspondence run",
     "the lpeg patterns of bn.from that split a literal into sign/prefix/digits are not modelled (the model starts from the captured parts)",
 ]
